@@ -1,8 +1,41 @@
 //! C15: interleaved and concurrent iteration of many evaluators against each evaluator's solo run.
-use crate::flop::*;
+use crate::flop::{random_cfg, Cfg};
 use crate::proj::*;
 use crate::{Args, Out};
 use std::sync::Arc;
+
+/// everything observable about one showdown, as integers: turn, river, hole cards, probability bits, power indexes, winner flags
+fn item(sd: &espada::evaluator::Showdown) -> Vec<usize> {
+    let mut v = crate::flop::item(sd);
+    v.push(sd.probability().to_bits() as usize);
+    for p in sd.players() {
+        v.push(p.hand().power_index() as usize);
+    }
+    for p in sd.players() {
+        v.push(p.is_winner() as usize);
+    }
+    v
+}
+
+/// order-sensitive 62-bit digest of a long run (two 31-bit halves, TLC integers are 32-bit)
+struct Digest(u64, usize);
+impl Digest {
+    fn new() -> Digest {
+        Digest(0xcbf2_9ce4_8422_2325, 0)
+    }
+    fn add(&mut self, it: &[usize]) {
+        for x in it {
+            self.0 ^= *x as u64;
+            self.0 = self.0.wrapping_mul(0x0000_0100_0000_01B3);
+        }
+        self.0 ^= 0xff;
+        self.0 = self.0.wrapping_mul(0x0000_0100_0000_01B3);
+        self.1 += 1;
+    }
+    fn json(&self) -> String {
+        format!("[{},{},{}]", (self.0 >> 33) & 0x7fff_ffff, (self.0 >> 2) & 0x7fff_ffff, self.1)
+    }
+}
 
 fn items_json(items: &[Vec<usize>]) -> String {
     let v: Vec<String> = items.iter().map(|i| list(i)).collect();
@@ -24,13 +57,67 @@ fn pool(seed: u64, n: usize) -> Vec<Cfg> {
             c.ranges.truncate(1);
             c.ranges[0].truncate(2);
         }
-        v.push(c);
+        v.push(c.clone());
+        if i % 4 == 1 && v.len() < n {
+            // the same combos seat by seat with other weights, right after the original: only probability() tells them apart
+            let mut d = c.clone();
+            for r in d.ranges.iter_mut() {
+                for e in r.iter_mut() {
+                    e.m = 3;
+                    e.e = 2 + (e.a % 2) as u32;
+                }
+            }
+            v.push(d);
+        }
+        if v.len() >= n {
+            break;
+        }
     }
+    v.truncate(n);
     v
+}
+
+/// a few configurations with long runs (~10^5 showdowns each) for the concurrent digest runs
+fn big_pool(seed: u64) -> Vec<Cfg> {
+    let mut rng = Rng::new(seed ^ 0xB16);
+    (0..4)
+        .map(|_| {
+            let mut c = random_cfg(&mut rng, 1, 1, 1);
+            let f = c.flop;
+            c.ranges = vec![crate::flop::random_range(&mut rng, 20, &f, &[]), crate::flop::random_range(&mut rng, 16, &f, &[])];
+            c.scoped = false;
+            c.from = (0, 1);
+            c.to = (48, 49);
+            c
+        })
+        .collect()
+}
+
+fn digest_of(c: &Cfg) -> Option<String> {
+    let c = c.clone();
+    guarded(move || {
+        let mut d = Digest::new();
+        let cap = c.max_deals();
+        for sd in c.evaluator() {
+            d.add(&item(&sd));
+            if d.1 > cap {
+                break;
+            }
+        }
+        d.json()
+    })
 }
 
 /// child process: iterate configuration `--index` of the pool alone and print its items
 pub fn solo_child(args: &Args, mut out: Out) -> usize {
+    if args.num("big", 0) == 1 {
+        let c = big_pool(args.num("seed", 1))[args.num("index", 0) as usize].clone();
+        match digest_of(&c) {
+            Some(d) => out.line(&format!("{{\"outcome\":\"ok\",\"digest\":{}}}", d)),
+            None => out.line("{\"outcome\":\"panic\",\"digest\":[0,0,0]}"),
+        }
+        return out.finish();
+    }
     let p = pool(args.num("seed", 1), args.num("pool", 40) as usize);
     let c = p[args.num("index", 0) as usize].clone();
     let cap = c.max_deals() + 1;
@@ -68,6 +155,18 @@ pub fn record_c15(args: &Args, mut out: Out) -> usize {
             let n = *sched.iter().max().unwrap();
             let ids: Vec<usize> = (0..n).map(|j| (si * 3 + j * 11 + si / 40) % npool).collect();
             inter_event(&p, &ids, &sched, &solo_line, &mut out);
+        }
+    }
+    // twins: two live iterators over the same combos seat by seat, differing only in weights, created one right after
+    // the other, called alternately (both creation orders)
+    for i in 0..npool.saturating_sub(1) {
+        let same = p[i].flop == p[i + 1].flop
+            && p[i].ranges.len() == p[i + 1].ranges.len()
+            && p[i].ranges.iter().zip(p[i + 1].ranges.iter()).all(|(a, b)| a.len() == b.len() && a.iter().zip(b.iter()).all(|(x, y)| x.a == y.a && x.b == y.b));
+        if same {
+            let sched: Vec<usize> = (0..24).map(|k| 1 + k % 2).collect();
+            inter_event(&p, &[i, i + 1], &sched, &solo_line, &mut out);
+            inter_event(&p, &[i + 1, i], &sched, &solo_line, &mut out);
         }
     }
     // random schedules over 2..6 live iterators until all are exhausted (+ a few calls more)
@@ -118,6 +217,37 @@ pub fn record_c15(args: &Args, mut out: Out) -> usize {
                 Some((items, after)) => out.line(&format!("{{\"op\":\"thread\",\"id\":{},\"thread\":{},\"items\":{},\"after\":{}}}", solo_line[id], t, items_json(&items), after)),
                 None => out.line(&format!("{{\"op\":\"thread\",\"id\":{},\"thread\":{},\"items\":[[-2]],\"after\":-2}}", solo_line[id], t)),
             }
+        }
+    }
+    // long concurrent runs: every thread drains its own evaluator of ~10^5 showdowns; each run is compared with the
+    // digest of the same configuration drained alone in a child process
+    let bigs = big_pool(seed);
+    let mut big_line = vec![];
+    for i in 0..bigs.len() {
+        let o = std::process::Command::new(&exe)
+            .args(["c15-solo", "--seed", &seed.to_string(), "--big", "1", "--index", &i.to_string()])
+            .output()
+            .expect("cannot start child");
+        let text = String::from_utf8_lossy(&o.stdout);
+        let body = text.lines().find(|l| l.starts_with('{')).map(|l| l[1..l.len() - 1].to_string()).unwrap_or("\"outcome\":\"died\",\"digest\":[0,0,0]".to_string());
+        out.line(&format!("{{\"op\":\"solo\",\"id\":{},\"big\":1,{},{}}}", 1000 + i, bigs[i].json_fields(), body));
+        big_line.push(out.n);
+    }
+    let shared_big = Arc::new(bigs);
+    for _ in 0..args.num("big-rounds", 1) {
+        let barrier = Arc::new(std::sync::Barrier::new(threads));
+        let mut hs = vec![];
+        for t in 0..threads {
+            let (sb, barrier) = (shared_big.clone(), barrier.clone());
+            let id = t % sb.len();
+            hs.push(std::thread::spawn(move || {
+                barrier.wait();
+                (t, id, digest_of(&sb[id]))
+            }));
+        }
+        for h in hs {
+            let (t, id, d) = h.join().unwrap();
+            out.line(&format!("{{\"op\":\"bigthread\",\"id\":{},\"thread\":{},\"digest\":{}}}", big_line[id], t, d.unwrap_or("[0,0,0]".to_string())));
         }
     }
     out.finish()
